@@ -3,7 +3,7 @@
    keeps the shape, the fill value and every element, and every intermediate result is in canonical
    form.  (Parts 1 and 2: ConvertM.v — the COO constructor; ConvertG.v — COO <-> GCXS.) *)
 From Coq Require Import ZArith List Bool Lia Sorting.Sorted Sorting.Permutation.
-From Verif Require Import Py Shape COO GCXS COOP Convert ConvertL ConvertM ConvertG.
+From Verif Require Import Py Shape COO GCXS COOP S_convert Convert ConvertL ConvertM ConvertG.
 Import ListNotations.
 Open Scope Z_scope.
 
@@ -519,6 +519,49 @@ Section Closed.
           by (unfold entries, coo_of_entries; cbn [c_coords c_data]; symmetry; apply combine_fst_snd) end.
       reflexivity. }
     cbv zeta. rewrite E. exact Hp.
+  Qed.
+
+  (* ---- the index dtype chosen by the converters holds everything they store *)
+  Lemma fitsb_of_Forall cap l : Forall (fun v => 0 <= v <= cap) l -> fitsb cap l = true.
+  Proof.
+    intros H. unfold fitsb. apply forallb_forall. intros v Hv. rewrite Forall_forall in H. specialize (H v Hv).
+    apply andb_true_iff. split; [apply Z.leb_le|apply Z.leb_le]; lia.
+  Qed.
+
+  Lemma fits_generic (c : coo V) ca cap :
+    canonical V c -> shape_ok (c_shape c) -> (2 <= length (c_shape c))%nat ->
+    caxes_okb (Z.of_nat (length (c_shape c))) ca = true ->
+    row_size (c_shape c) ca <= cap -> col_size (c_shape c) ca <= cap -> Z.of_nat (length (c_data c)) <= cap ->
+    let g := gcxs_from_coo c ca in
+    fitsb cap (g_indices g) = true /\ fitsb cap (row_numbers (g_indptr g)) = true /\ fitsb cap (g_indptr g) = true.
+  Proof.
+    intros Hc Hok Hnd Hca Hr Hcs Hn. cbv zeta.
+    destruct (from_coo_nd_bounds V c ca Hc Hok Hca Hnd) as [B1 [B2 B3]].
+    repeat split; apply fitsb_of_Forall; (eapply Forall_impl; [|eassumption]); intros v Hv; simpl in Hv; lia.
+  Qed.
+
+  Lemma gcxs_from_coo_fits_proof (c : coo V) ca :
+    canonical V c -> shape_ok (c_shape c) -> (2 <= length (c_shape c))%nat ->
+    caxes_okb (Z.of_nat (length (c_shape c))) ca = true ->
+    let g := gcxs_from_coo c ca in
+    let cap := from_coo_capacity (c_shape c) ca (Z.of_nat (length (c_data c))) in
+    fitsb cap (g_indices g) = true /\ fitsb cap (row_numbers (g_indptr g)) = true /\ fitsb cap (g_indptr g) = true.
+  Proof.
+    intros Hc Hok Hnd Hca. apply fits_generic; auto;
+      unfold from_coo_capacity, S_convert.s_from_coo_auto_check, S_convert.s_from_coo_auto_choose,
+             S_convert.s_from_coo_explicit_check; cbn [S_convert.zmax_list]; lia.
+  Qed.
+
+  Lemma change_axes_fits_proof (c : coo V) ca ca' :
+    canonical V c -> shape_ok (c_shape c) -> (2 <= length (c_shape c))%nat ->
+    caxes_okb (Z.of_nat (length (c_shape c))) ca = true ->
+    caxes_okb (Z.of_nat (length (c_shape c))) ca' = true -> ca' <> ca ->
+    let g := gcxs_change_axes (gcxs_from_coo c ca) ca' in
+    let cap := transpose_capacity (c_shape c) ca' (Z.of_nat (length (c_data c))) in
+    fitsb cap (g_indices g) = true /\ fitsb cap (row_numbers (g_indptr g)) = true /\ fitsb cap (g_indptr g) = true.
+  Proof.
+    intros Hc Hok Hnd Hca Hca' _. cbv zeta. rewrite change_axes_from_coo_nd by assumption.
+    apply fits_generic; auto; unfold transpose_capacity, S_convert.s_transpose_bound; cbn [S_convert.zmax_list]; lia.
   Qed.
 End Closed.
 
